@@ -186,6 +186,10 @@ def _path(case):
     _counter[0] += 1
     d = os.path.join(env.scratch(), "c08")
     os.makedirs(d, exist_ok=True)
+    if case.get("reuse_path"):
+        # the same file name written again with other content (a pipeline overwriting its output): what is read back must
+        # be what was written last, whatever was read from that path before
+        return os.path.join(d, f"{case['reuse_path']}.{case['fmt']}")
     return os.path.join(d, f"v{_counter[0]}.{case['fmt']}")
 
 
@@ -613,6 +617,15 @@ def run(ctx):
                 c["kinds"]["values"] = "bitpatterns"
                 check_case(ctx, c, boxes=_boxes_all(shape), memmap_boxes=0)
                 ctx.count("exhaustive-boxes-volumes")
+    # the same path overwritten several times in one process, every format x gzip
+    for rep in range(ctx.budget(1, 4)):
+        for fmt in EXTS:
+            for gz in (False, True):
+                for k in range(3):
+                    c = gen_case(rng, ctx, fmt=fmt, gz=gz)
+                    c["reuse_path"] = f"rewritten_{rep}_{int(gz)}"
+                    check_case(ctx, c, boxes=_boxes_random(rng, c["shape"], 3), memmap_boxes=1)
+                    ctx.count("same-path-rewritten")
     # random volumes
     n = ctx.budget(320, 2400)
     for i in range(n):
